@@ -127,3 +127,66 @@ func ZZReadOnlyOpen(n, kind, cut int) {
 	vAssert("no-fabricated-entry", rerr != nil)
 	vReach("end")
 }
+
+func zzStat(string) (os.FileInfo, error)        { return nil, nil }
+func zzMkdirAll(string, os.FileMode) error      { return nil }
+func zzInitFileWithZeroes(f *os.File, size uint32) error {
+	zzFiles[zzHandles[f]] = make([]byte, size)
+	return nil
+}
+func zzRWSegmentConfig(basePath string, baseOffset int64) (*segmentConfig, error) {
+	p := segmentPath(basePath, baseOffset) + ".txnx"
+	_, exists := zzFiles[p]
+	return &segmentConfig{codec: codec.SupportedCodecs[0], segmentExists: exists, txnPath: p,
+		idxPath: segmentPath(basePath, baseOffset) + ".idxx", baseOffset: baseOffset}, nil
+}
+
+// ZZReadWriteReopen (C10 / C09): the REAL newReadWriteSegment (open or create, map, RecoverIndex with the
+// commit offset, last CRC / write cursor recovery) across two process lives. Life 1 creates the current
+// segment and appends n records (symbolic bytes); the process dies (nothing else is written). Life 2 reopens
+// the segment with a symbolic commit offset, must find exactly the n records, appends one more; life 3
+// reopens again and must find n+1 records, bit-identical — the CRC chain written after a reopen continues
+// the one recovered from the file.
+func ZZReadWriteReopen(n int) {
+	zzFiles = map[string][]byte{}
+	zzHandles = map[*os.File]string{}
+	dir := vTempDir()
+	base := int64(3)
+	cp := &zzCommit{off: base - 1 + int64(vChoice("committed", n+1))}
+	s1, err := newReadWriteSegment(dir, base, 128, 0, cp)
+	vAssert("create-ok", err == nil)
+	var stored [][]byte
+	for i := 0; i < n; i++ {
+		p := vBytes("p", 2)
+		vAssert("append-ok", s1.Append(base+int64(i), p) == nil)
+		stored = append(stored, p)
+	}
+	_ = s1.Flush()
+	// life 2
+	s2, err := newReadWriteSegment(dir, base, 128, 0, cp)
+	vAssert("reopen-ok", err == nil)
+	if err != nil {
+		return
+	}
+	vAssert("reopen-finds-every-record", s2.LastOffset() == base+int64(n)-1)
+	extra := []byte{0xAB, 0xCD}
+	vAssert("append-continues-at-the-next-offset", s2.Append(base+int64(n), extra) == nil)
+	stored = append(stored, extra)
+	_ = s2.Flush()
+	// life 3
+	cp.off = base + int64(n)
+	s3, err := newReadWriteSegment(dir, base, 128, 0, cp)
+	vAssert("second-reopen-ok", err == nil)
+	if err != nil {
+		return
+	}
+	vAssert("second-reopen-finds-every-record", s3.LastOffset() == base+int64(n))
+	for i := range stored {
+		got, rerr := s3.Read(base + int64(i))
+		vAssert("record-readable", rerr == nil && len(got) == 2)
+		if rerr == nil && len(got) == 2 {
+			vAssert("record-bit-identical", got[0] == stored[i][0] && got[1] == stored[i][1])
+		}
+	}
+	vReach("end")
+}
